@@ -38,6 +38,8 @@ THEOREMS = ["IwModel.C18." + n for n in (
     "xstr_mem_refines", "xstr_mem_run", "xstr_printf_exact", "xstr_wrap_clone_spec",
     "pool_split_reference", "pool_trim_rule", "pool_printf_exact", "pool_children_ownership",
     "hmap_freed_exactly_once", "plist_freed_exactly_once", "freed_exactly_once",
+    # round 4 (c18poolref): children with their own reference counts, orphans of a destroyed parent
+    "pool_history_balance", "poLedger_isSome_iff", "pool_orphan_witness",
 )]
 
 M32 = 0xffffffff
